@@ -312,7 +312,7 @@ def main(argv):
             comps.append(("verus", r))
         for k in cfg.get("kani", []):
             import kanimod
-            r = kanimod.run(k, tier, seed)
+            r = kanimod.run(k, tier, seed, pid)
             comps.append(("kani", r))
         for k in cfg.get("rac", []):
             import racmod
